@@ -343,35 +343,58 @@ Proof. reflexivity. Qed.
 (* ------------------------------------------------------------------ *)
 From SV Require Import C15.PmProofs.
 
-(* "the server recovers exactly the username and password" configured AT THE TIME of the
-   request is false of the faithful model for the challenge-response transport: its one urllib
-   password manager answers with the first entry that is the URL or a path prefix of it, so
-   credentials first used for /svc and then changed are still sent to /svc/op -
-   challenge_credentials_refuted, reported by the harness as C15:stale-credentials-for-deeper-path.
-   Guarded form (no entry for another, shorter path stands in front): *)
-Theorem challenge_credentials_partial : forall P u pw j prev pm q p cb,
+(* (since 2ac69bb: a fresh urllib password manager for every request) after a Basic challenge
+   the retried request carries the pair configured AT THE TIME of the request, whatever state
+   earlier sends left - no guard *)
+Theorem challenge_credentials : forall P u pw j prev pm q p cb,
   p_challenge p = Some cb ->
   has_key l_authorization (u2_headers (start_headers P prev q)) = false ->
-  pm_clear (q_path q) pm = true ->
   let m := fst (model_step P TChallenge (Some u, Some pw) j prev pm q p) in
   m_conns m = 2%N /\ dict_get l_authorization (m_hdrs m) = Some (authorization std_alphabet u pw).
-Proof. exact challenge_credentials_partial_l. Qed.
-Print Assumptions challenge_credentials_partial.
+Proof. exact challenge_credentials_l. Qed.
+Print Assumptions challenge_credentials.
 
-Theorem challenge_credentials_refuted :
+(* credentials set, used, then reset to None: the next challenge is NOT answered - through any
+   transport class, after any history: one connection, no Authorization added, the 401 surfaces *)
+Theorem no_credentials_no_answer : forall P k c j prev pm q p cb,
+  fst c = None \/ snd c = None ->
+  p_challenge p = Some cb ->
+  has_key l_authorization (u2_headers (start_headers P prev q)) = false ->
+  let m := fst (model_step P k c j prev pm q p) in
+  m_conns m = 1%N /\ m_result m = RTransportError 401%N cb /\
+  m_hdrs m = u2_headers (start_headers P prev q).
+Proof. exact no_credentials_no_answer_l. Qed.
+Print Assumptions no_credentials_no_answer.
+
+(* no send looks at what earlier sends left in the password manager *)
+Theorem history_independent : forall P k c j prev pm q p,
+  model_step P k c j prev pm q p = model_step P k c j prev [] q p.
+Proof. exact history_independent_l. Qed.
+Print Assumptions history_independent.
+
+(* regression witnesses of the fixed finding C15:stale-credentials-for-deeper-path: the manager
+   suds used before (one for the transport's life, an entry per URL) found the configured pair
+   only with no entry for a shorter path in front, and not for /svc/op after /svc *)
+Theorem accumulating_manager_partial : forall u pw pm q,
+  pm_clear (q_path q) pm = true ->
+  pm_find (q_path q) (pm_after_accumulating TChallenge (Some u, Some pw) pm q) = Some (u, pw).
+Proof. exact accumulating_manager_partial_l. Qed.
+Print Assumptions accumulating_manager_partial.
+
+Theorem accumulating_manager_refuted :
   exists path pm u p, pm_find path (pm_add path u p pm) <> Some (u, p).
-Proof. exact challenge_credentials_refuted_l. Qed.
-Print Assumptions challenge_credentials_refuted.
+Proof. exact accumulating_manager_refuted_l. Qed.
+Print Assumptions accumulating_manager_refuted.
 
-(* any number of credential changes while the URL stays the same: the manager always finds the
-   pair configured last (a transport that registered credentials only once would not) *)
 Theorem same_url_history : forall path changes u p,
   pm_find path (pm_add path u p (pm_history path changes)) = Some (u, p).
 Proof. exact same_url_history_l. Qed.
 Print Assumptions same_url_history.
 
 Example pm_nonvacuous :
-  let svc := [47; 115]%N in
-  pm_clear svc (pm_history svc [([97]%N, [49]%N); ([97]%N, [50]%N)]) = true /\
-  pm_find svc (pm_add svc [98]%N [51]%N (pm_history svc [([97]%N, [49]%N)])) = Some ([98]%N, [51]%N).
-Proof. split; reflexivity. Qed.
+  let q := mkReq None [47; 115; 47; 111]%N [] 1%N (Some [98]%N, Some [50]%N) false in
+  pm_find (q_path q) (pm_after TChallenge (q_creds q) [([47; 115]%N, ([97]%N, [49]%N))] q) = Some ([98]%N, [50]%N) /\
+  pm_find (q_path q) (pm_after_accumulating TChallenge (q_creds q) [([47; 115]%N, ([97]%N, [49]%N))] q)
+    = Some ([97]%N, [49]%N) /\
+  pm_after TChallenge (None, Some [50]%N) [([47; 115]%N, ([97]%N, [49]%N))] q = [].
+Proof. repeat split; reflexivity. Qed.
